@@ -471,9 +471,11 @@ def rule_width_branch(ctx):
             c = callee(t)
             if not c or not c["fn"].endswith("RenderContext::narrow_modular") or not t[3] or len(t[3]) != 1:
                 continue
+            from ..intervals import value_class
+            cls = set(value_class(f, t[3][0]))     # the answer may be kept in a named local and tested later (benign E12)
             for sb in range(len(f.blocks)):
                 st = f.term(sb)
-                if st[0] != "switch" or op_local(st[1]) != t[3][0]:
+                if st[0] != "switch" or op_local(st[1]) not in cls:
                     continue
                 tg = [x for _, x in st[2]] + [st[3]]
                 if len(tg) != 2 or tg[0] == tg[1]:
